@@ -13,7 +13,10 @@ from harness import text as T
 
 # 30-symbol token alphabet (C01 / C20 quantifier: "every token sequence up to a small length bound")
 TOKENS = ["a", "B_c", '"s t"', "1", "-2", "3.5", "1.2.3", "true", "null", "$V", "§", "→", "->", "⊕", "+", "~", "@", "⇌", " vs ", "∧",
-          "∨", "[", "]", ",", "::", ":", "\n", "\n  ", " //c", "N<q>", "X[y]", " ", "---", "True", "NULL"]
+          "∨", "[", "]", ",", "::", ":", "\n", "\n  ", " //c", "N<q>", "X[y]", " ", "---", "True", "NULL",
+          # digits that are not ASCII digits: No (superscript two; may START an identifier), Nd (Arabic-Indic three; lexes as a NUMBER),
+          # Nl (Roman numeral eight; identifier body only)
+          "²", "٣", "Ⅷ"]
 
 
 def gen_case(seed: int, idx: int, zones=True, p=0.4):
@@ -22,6 +25,44 @@ def gen_case(seed: int, idx: int, zones=True, p=0.4):
     ctext, crec = G.render(d, G.Spelling(rng, canonical=True))
     ltext, lrec = G.render(d, G.Spelling(rng, p=p, envelope=True))
     return d, ctext, crec, ltext, lrec
+
+
+FAMILY_CORNERS = [(0, "raw"), (1, "esc"), (0, "esc"), (1, "raw")]
+
+
+def family_spellings(seed, k: int, only=None, n_seeded: int = 2):
+    """Fixed family member k (docgen.family_docs) in its canonical spelling and in deterministic corners of the spelling space:
+    every applicable site non-canonical x which ASCII alias x which triple-quoted form, plus `n_seeded` seeded mixed spellings.
+    -> (family, name, model, [(label, text, rewrite receipts, advisories)]) with the canonical spelling first."""
+    fam, name, d = G.family_docs()[k]
+    ctext, crec, cadv = G.render_full(d, G.Spelling(random.Random(0), canonical=True))
+    out = [("canonical", ctext, crec, cadv)]
+    for (ai, tr) in FAMILY_CORNERS:
+        t, r, a = G.render_full(d, G.Spelling(random.Random(f"{seed}:fam:{k}:{ai}{tr}"), only=only, extreme=True, alias_index=ai, triple=tr))
+        out.append((f"corner:alias{ai}:{tr}", t, r, a))
+    for j in range(n_seeded):
+        t, r, a = G.render_full(d, G.Spelling(random.Random(f"{seed}:fam:{k}:s{j}"), only=only, p=[0.5, 0.25, 0.8][j % 3]))
+        out.append((f"seeded{j}", t, r, a))
+    return fam, name, d, out
+
+
+def family_chunk(args):
+    """worker: [(seed, k, only)] -> per family member the evaluation of every spelling on the real code."""
+    out = []
+    for (seed, k, only) in args:
+        fam, name, d, sps = family_spellings(seed, k, set(only) if only is not None else None)
+        out.append({"family": fam, "name": name, "model": d, "expected": G.expected_doc(d),
+                    "spellings": [{"label": lb, "text": t, "rec": r, "adv": a, "ev": eval_text(t)} for (lb, t, r, a) in sps]})
+    return out
+
+
+def family_args(seed, only=None):
+    return [(seed, k, sorted(only) if only is not None else None) for k in range(len(G.family_docs()))]
+
+
+def deep_nesting_records(pw: dict):
+    """the deep_nesting advisories of a parse_with_warnings result ([kind, depth, threshold, line, column])."""
+    return [x for x in pw.get("warnings", []) if x[0] == "deep_nesting"]
 
 
 def zones_of(docj):
